@@ -20,6 +20,7 @@ type refcountEngine struct {
 	last  uint32
 	kind  []string
 	arg   []int
+	its   [][]*nitro.Iterator // references taken through NewIterator, per snapshot
 }
 
 func init() { engines["refcount"] = func() engine { return &refcountEngine{} } }
@@ -36,11 +37,15 @@ func (e *refcountEngine) teardown() {
 	nitro.VerifHook = nil
 	if e.db != nil {
 		for i, s := range e.snaps {
+			for _, it := range e.its[i] {
+				it.Close()
+				e.held[i]--
+			}
 			for ; e.held[i] > 0; e.held[i]-- {
 				s.Close()
 			}
 		}
-		e.db.Close()
+		boundedClose(e.db.Close)
 		e.db = nil
 	}
 }
@@ -91,6 +96,7 @@ func (e *refcountEngine) step(toks []string) string {
 			s, _ := e.db.NewSnapshot()
 			e.snaps = append(e.snaps, s)
 			e.held = append(e.held, 1)
+			e.its = append(e.its, nil)
 		}
 		e.ctl = sched.NewController()
 		e.ctl.Steer = func(point int, obj uintptr) bool { return refcountPoints[nitroPoint[point]] }
@@ -127,14 +133,33 @@ func (e *refcountEngine) step(toks []string) string {
 			}
 			sn := e.snaps[s-1]
 			e.arg[ti] = s - 1
+			// odd threads take references through NewIterator and give them back through Iterator.Close
+			// (the same protocol steps: NewIterator = Open, Iterator.Close = Snapshot.Close)
+			viaIter := ti%2 == 1
 			if toks[2] == "open" {
-				f = func() string { return fmt.Sprint(sn.Open()) }
+				if viaIter {
+					f = func() string {
+						it := sn.NewIterator()
+						if it != nil {
+							e.its[s-1] = append(e.its[s-1], it)
+						}
+						return fmt.Sprint(it != nil)
+					}
+				} else {
+					f = func() string { return fmt.Sprint(sn.Open()) }
+				}
 			} else {
 				if e.held[s-1] <= 0 {
 					return "bad-op"
 				}
 				e.held[s-1]--
-				f = func() string { sn.Close(); return "" }
+				if n := len(e.its[s-1]); viaIter && n > 0 {
+					it := e.its[s-1][n-1]
+					e.its[s-1] = e.its[s-1][:n-1]
+					f = func() string { it.Close(); return "" }
+				} else {
+					f = func() string { sn.Close(); return "" }
+				}
 			}
 		case "gc":
 			if len(toks) != 3 {
